@@ -60,6 +60,7 @@ impl Property for C14 {
             "handle_in_mailbox_of_finished_process_closed",
             "second_resource_kind_used",
             "session_process_awaited_while_owning",
+            "termination_reported_again_after_late_transfer",
             "ownership_returned_to_earlier_owner",
             "transfer_below_closure_top_level",
             "process_owning_two_resources_closed",
@@ -76,7 +77,7 @@ impl Property for C14 {
         let neps = 1 + rng.usize(4);
         let mut kinds = Vec::new();
         for k in 0..neps {
-            let kind = rng.below(18);
+            let kind = rng.below(19);
             h.u64(kind);
             kinds.push(kind);
             let aw = |rng: &mut Rng, awaits: &mut Vec<String>, name: String| {
@@ -85,6 +86,18 @@ impl Property for C14 {
                 }
             };
             match kind {
+                18 => {
+                    // a handle sent to a process that has finished and has already been awaited; then it is
+                    // awaited again: that report comes after the transfer
+                    lines.push(format!("e{k} = @#{{ x = ! [#\\File, 0], 0 }}"));
+                    lines.push(format!("q{k}a = [! [e{k}, 400]]"));
+                    lines.push(format!("f{k} = [\"/e{k}\" .0, 577, 420] __file_open__"));
+                    lines.push(format!("f{k} e{k}"));
+                    if rng.chance(1, 2) {
+                        lines.push(format!("z{k} = [! [{}]]", *rng.pick(&[1u32, 10])));
+                    }
+                    lines.push(format!("q{k}b = [! [e{k}, 400]]"));
+                }
                 15 => {
                     // a second kind of resource (an address iterator): used, then closed / left open / the
                     // owner fails while it is open
@@ -250,7 +263,7 @@ impl Property for C14 {
         for (i, a) in awaits.iter().enumerate() {
             lines.push(format!("r{i} = ! [{a}, 400]"));
         }
-        if use_after && let Some((k, _)) = kinds.iter().enumerate().find(|(_, kd)| matches!(**kd, 2 | 3 | 6 | 7 | 10 | 11 | 12 | 13 | 17)) {
+        if use_after && let Some((k, _)) = kinds.iter().enumerate().find(|(_, kd)| matches!(**kd, 2 | 3 | 6 | 7 | 10 | 11 | 12 | 13 | 17 | 18)) {
             lines.push(format!("z = [f{k}, 0, 1] __file_read__"));
             h.u64(0xdead);
         }
@@ -539,6 +552,14 @@ impl Monitor for ResMonitor {
                     for (pid, r) in results {
                         if r.is_some() {
                             self.reported.insert(*pid);
+                            // a handle that reached this process after an earlier report of its termination
+                            // was nobody's business then; this report comes after the transfer, so the
+                            // environment has been told (again) that the owner is gone
+                            let again: Vec<usize> = self.silent.iter().copied().filter(|r| self.owner.get(r) == Some(pid)).collect();
+                            for r in again {
+                                self.silent.remove(&r);
+                                self.probe("termination_reported_again_after_late_transfer");
+                            }
                         }
                     }
                     // the automatic cleanup triggered by this report
